@@ -210,7 +210,8 @@ def reader_headers(u: U):
 # reader: base64 alignment
 
 
-@unit("C19", "reader.align_base64", functions=[f"{MP}:BodyPartReader._align_base64_chunk"], timeout_ms=20000)
+@unit("C19", "reader.align_base64", functions=[f"{MP}:BodyPartReader._align_base64_chunk"], timeout_ms=20000,
+      must_cover=("C19.align.walk_reached_the_start", "C19.align.cut_inside"))
 def reader_align(u: U):
     """_align_base64_chunk: whatever it returns, returned ++ carried == the chunk it was given (no byte lost or
     reordered); the walk back over a partial quartet stays inside the chunk and terminates"""
@@ -228,7 +229,9 @@ def reader_align(u: U):
         c = u.c
         kt = tint(k)
         c.add(P(z3.IntVal(0)) == 0)
-        c.add(z3.And(P(kt) >= 0, P(kt) <= kt))
+        # (guarded: the walk asks for k = cut - 1, which is -1 when the walk reaches the start of the chunk; an
+        # unguarded range fact for k = -1 is `false` and silently removed exactly the path that returns at cut == 0)
+        c.add(z3.Implies(kt >= 0, z3.And(P(kt) >= 0, P(kt) <= kt)))
         c.add(z3.Implies(z3.And(kt >= 0, kt < tint(n)), P(kt + 1) == P(kt) + z3.If(tbool(_in_b64(chunk, k, M)), 1, 0)))
 
     class _Translated:
@@ -257,20 +260,49 @@ def reader_align(u: U):
         cur = holder["cur"]
         axioms_at(cut)
         axioms_at(cut - 1)
+        axioms_at(blen(cur))
+        rem = L["remainder"]
         return [("cut_in_chunk", And(cut >= 0, cut <= blen(cur))),
-                ("left_counted", And(left >= 0, left <= mk_int(P(tint(cut)))))]
+                ("left_counted", And(left >= 0, left <= mk_int(P(tint(cut))))),
+                # ghost count: the base64 characters walked over so far are exactly remainder - left
+                ("walk_counts", mk_int(P(tint(blen(cur)))) - mk_int(P(tint(cut))) == rem - left)]
 
-    u.loop(fn, 0, inv=inv, variant=lambda L: L["cut"])
+    u.loop(fn, 0, inv=inv, variant=lambda L: L["cut"], at_head=lambda L: holder.__setitem__("exit_cut", L["cut"]))
     out = u.call(f, r, chunk, size)
     u.check("C19.align.total", out.ok, f"no IndexError / wrap-around while walking back: {out!r}")
     if not out.ok:
         return
     res = SBytes.of(out.value)
     carry = SBytes.of(fields(r)["_b64_carry"])
+    if "cur" in holder and "exit_cut" in holder:
+        # reachability behind the ghost axioms (an unguarded axiom once made the cut == 0 exit unsatisfiable)
+        if u.branch(holder["exit_cut"] == 0, "walk reached the start"):
+            u.cover("C19.align.walk_reached_the_start")
+        else:
+            u.cover("C19.align.cut_inside")
     u.check("C19.align.conservation", (res + carry).prov_eq(chunk),
             "returned ++ carried over == the chunk given: nothing lost, duplicated or reordered")
-    u.check("C19.align.progress", Or(blen(res) > 0, blen(chunk) == 0),
-            "a non-empty chunk always yields something: the caller makes progress")
+    # the chunk the walk worked on is the given one cut at `size` (unless the part is at its end)
+    cur = holder.get("cur")
+    short_delivery = And(Not(at_eof), blen(chunk) < size)
+    u.check("C19.align.progress", Or(blen(res) > 0, blen(chunk) == 0, short_delivery),
+            "a non-empty chunk always yields something - except a delivery shorter than asked for that holds no whole "
+            "quartet yet, which is kept back whole (read_chunk() then reads on: C19.read_chunk.empty_only_at_the_end)")
+    if cur is not None:
+        axioms_at(blen(res))
+        axioms_at(blen(cur))
+        n_b64_out = mk_int(P(tint(blen(res))))
+        n_b64_all = mk_int(P(tint(blen(cur))))
+        # From the property: a base64 part is read back identically under ANY segmentation, also when every chunk is
+        # decoded on its own (part.decode(await part.read_chunk())) - so every chunk but the last holds whole quartets.
+        # The one escape is a full-size chunk that holds fewer than four base64 characters at all (a run of padding /
+        # line breaks as long as the chunk asked for): it cannot be produced by the writer, whose base64 bodies hold
+        # base64 characters only, and an existing test pins that it is handed back as it is.
+        u.check("C19.align.whole_quartets_unless_last", Or(at_eof, n_b64_out % 4 == 0,
+                                                            And(blen(chunk) >= size, n_b64_all < 4)),
+                "every chunk handed back before the end of the part holds a multiple of four base64 characters, however "
+                "few bytes the stream delivered (a chunk cut mid-quartet fails to decode on its own)",
+                known=[("F19c", True)], witness={"chunk_len": blen(chunk), "size": size})
 
 
 def _in_b64(chunk, i, M):
@@ -470,11 +502,31 @@ def reader_base64_dispatch(u: U):
     if cte is not None:
         hdrs_["Content-Transfer-Encoding"] = cte
     aligned = []
+    reads = []
     fresh = u.bytes("fresh")
+    u.assume(blen(fresh) > 0)            # a read that is not at the end of the part delivers at least one byte
+    carried_first = u.choose(2, "first_chunk_is_all_carried") == 1   # _align_base64_chunk kept a short delivery back
+    eof_on_read = u.choose(3, "part_ends_with_read")                 # 0: never (within the bound), 1: first, 2: second read
 
     def align(self, chunk, size):
         aligned.append((chunk, size))
+        if carried_first and len(aligned) == 1 and not fields(self)["_at_eof"]:
+            fields(self)["_b64_carry"] = chunk
+            return b""
         return chunk
+
+    def read_stub(name):
+        def rd(self, n):
+            reads.append(n)
+
+            def done():
+                if eof_on_read == len(reads):
+                    fields(self)["_at_eof"] = True
+                return fresh
+
+            return SAwait(result=done, name=name)
+
+        return rd
 
     class _Content:
         def readline(self):
@@ -483,14 +535,21 @@ def reader_base64_dispatch(u: U):
     r = u.obj("BodyPartReader", {"_at_eof": False, "_b64_carry": b"", "_boundary_len": 6, "_length": None,
                                  "_read_bytes": 0, "headers": hdrs_, "_content": _Content()},
               {"_align_base64_chunk": align,
-               "_read_chunk_from_stream": lambda self, n: SAwait(result=fresh, name="from_stream"),
-               "_read_chunk_from_length": lambda self, n: SAwait(result=fresh, name="from_length")},
+               "_read_chunk_from_stream": read_stub("from_stream"),
+               "_read_chunk_from_length": read_stub("from_length")},
               shared=False, real=(MP, "BodyPartReader"),
               init=(MP, "BodyPartReader.__init__", (b"--b", hdrs_, "CONTENT"), {}))
     f = u.load(MP, "BodyPartReader.read_chunk")
+    from pyvc.runtime import LoopSpec
+
+    u.default_loop_spec = LoopSpec(unroll=True, bound=4)
     out = u.call(f, r, 8192)
     u.check("C19.b64.dispatch.total", out.ok, repr(out))
     is_b64 = cte is not None and cte.lower() == "base64"
-    u.check("C19.b64.dispatch.aligned_iff_base64_any_case", (len(aligned) == 1) == is_b64,
+    if out.ok:
+        u.check("C19.read_chunk.empty_only_at_the_end", Or(blen(out.value) > 0, fields(r)["_at_eof"] is True),
+                "read_chunk() hands back an empty chunk only when the part is exhausted: callers loop `while chunk:` - a "
+                "base64 delivery shorter than a quartet is carried and the read repeated, never returned as b''")
+    u.check("C19.b64.dispatch.aligned_iff_base64_any_case", (len(aligned) == len(reads)) if is_b64 else not aligned,
             "chunks of a part are aligned to base64 quartets exactly when its Content-Transfer-Encoding is base64, "
             f"compared case-insensitively (header value {cte!r})", witness={"content_transfer_encoding": cte})
